@@ -526,6 +526,8 @@ pub fn c18_cases() -> Vec<(String, Vec<String>)> {
         ("error", "error(Er, |lex| { let _ = lex; logos::Er })"),
         ("utf8", "utf8 = false"),
         ("crate", "crate = some::path"),
+        ("export_dir", "export_dir = \"target/verif-export\""),
+        ("source", "source = [u8]"),
         ("suba", "subpattern a = \"[0-9]\""),
         ("subb", "subpattern b = \"(?&a)+x\""),
     ];
@@ -1102,6 +1104,40 @@ pub fn c19_cases(tier: Tier) -> Vec<C19Case> {
             push("pattern x logos item".into(), format!("#[logos({})] enum T {{ #[regex(\"{}\")] A }}", l.text, p.text), p.must_reject.or(l.must_reject));
         }
     }
+    // unknown NAMES in the diagnostics: every known argument / item / flag name with one character
+    // replaced by a 2-, 3- or 4-byte letter at every position (whatever a diagnostic does with the
+    // name - cut it, compare prefixes, suggest a neighbour - must work for every alignment)
+    for name in ["priority", "callback", "ignore", "allow_greedy", "skip", "extras", "error", "utf8", "crate", "subpattern", "type", "lifetime", "source", "case", "ascii_case", "export_dir", "a", "ab", "abc"] {
+        let chars: Vec<char> = name.chars().collect();
+        for i in 0..=chars.len() {
+            for sub in ['ï', '中', '𐐀'] {
+                for insert in [false, true] {
+                    if i == chars.len() && !insert {
+                        continue;
+                    }
+                    let mut c = chars.clone();
+                    if insert {
+                        c.insert(i, sub);
+                    } else {
+                        c[i] = sub;
+                    }
+                    let n: String = c.into_iter().collect();
+                    if n == "type" || n == "crate" {
+                        continue;
+                    }
+                    push("unknown name: token argument".into(), format!("enum T {{ #[token(\"a\", {n} = 3)] A }}"), Some("unknown argument"));
+                    push("unknown name: regex argument group".into(), format!("enum T {{ #[regex(\"a\", {n}(case))] A }}"), Some("unknown argument"));
+                    push("unknown name: ignore flag".into(), format!("enum T {{ #[token(\"a\", ignore({n}))] A }}"), Some("unknown flag"));
+                    push("unknown name: skip argument".into(), format!("#[logos(skip(\"a\", {n} = 3))] enum T {{ #[token(\"z\")] Z }}"), Some("unknown argument"));
+                    push("unknown name: logos item".into(), format!("#[logos({n} = \"x\")] enum T {{ #[token(\"z\")] Z }}"), Some("unknown item"));
+                    push("unknown name: logos item group".into(), format!("#[logos({n}(E))] enum T {{ #[token(\"z\")] Z }}"), Some("unknown item"));
+                    push("unknown name: logos item literal".into(), format!("#[logos({n} \"x\")] enum T {{ #[token(\"z\")] Z }}"), Some("unknown item"));
+                    push("unknown name: error argument".into(), format!("#[logos(error(E, {n} = f))] enum T {{ #[token(\"z\")] Z }}"), Some("unknown argument"));
+                    push("unknown name: keyword item".into(), format!("#[logos({n} x = \"a\")] enum T {{ #[token(\"z\")] Z }}"), Some("unknown item"));
+                }
+            }
+        }
+    }
     // the TEXT of a pattern inside the diagnostics: every reason that prints a pattern x sources of
     // every byte length in a window x every alignment of 2-, 3- and 4-byte characters (front padding
     // 0..3), plus characters that mean something to format strings, string literals and proc-macro
@@ -1209,7 +1245,7 @@ pub fn c19seq(a: &Args) -> Report {
     let mut rep = Report::new(&a.prop, "vgraph c19seq (token sequences)", &a.tier_name);
     let thorough = a.tier == Tier::Thorough;
     let def_alpha: Vec<&str> = vec!["\"a\"", "b\"a\"", ",", "priority", "=", "3", "callback", "cb", "|lex| 1", "ignore", "(case)", "(ascii_case)", "allow_greedy", "true", "x::y", "()"];
-    let logos_alpha: Vec<&str> = vec!["skip", "\"a\"", "(\"b\")", "(\"b\", cb)", ",", "=", "extras", "E", "error", "(E)", "(E, cb)", "utf8", "false", "crate", "::logos", "subpattern", "a", "type", "T", "lifetime", "'x", "none", "source"];
+    let logos_alpha: Vec<&str> = vec!["skip", "\"a\"", "(\"b\")", "(\"b\", cb)", ",", "=", "extras", "E", "error", "(E)", "(E, cb)", "utf8", "false", "crate", "::logos", "subpattern", "a", "type", "T", "lifetime", "'x", "none", "source", "export_dir"];
     let (dlen, llen) = if thorough { (5, 5) } else { (4, 4) };
     rep.bounds.insert("rule".into(), format!("all token sequences of length <= {dlen} over {} tokens as the argument list of #[token], #[regex] and #[logos(skip(..))], and of length <= {llen} over {} tokens as the item list of #[logos(..)], each through catch_unwind(generate). Oracles: no panic, output lexes as Rust; every accepted comma-separated list is re-run in every permutation of its order-free items (at most 5) and must give the same output. Non-trivial = the sequence is accepted, or malformed in a way that reaches the attribute parser (it lexes as Rust tokens).", def_alpha.len(), logos_alpha.len()));
     fn seqs(alpha: &[&str], max: usize) -> Vec<Vec<usize>> {
